@@ -2,6 +2,10 @@ use crate::Ctx;
 pub mod c01;
 pub mod c01_sr;
 pub mod c03;
+pub mod c06;
+pub mod c11;
+pub mod c12;
+pub mod c17;
 
 pub fn run(id: &str, ctx: &Ctx) -> i32 {
     // model self-consistency before any verdict (failure = machinery error, exit 2)
@@ -10,6 +14,10 @@ pub fn run(id: &str, ctx: &Ctx) -> i32 {
     match id {
         "C01" => c01::run(ctx),
         "C03" => c03::run(ctx),
+        "C06" => c06::run(ctx),
+        "C11" => c11::run(ctx),
+        "C12" => c12::run(ctx),
+        "C17" => c17::run(ctx),
         _ => { eprintln!("unknown property {id}"); 2 }
     }
 }
@@ -20,6 +28,10 @@ pub fn replay(id: &str, path: &str) -> i32 {
     match id {
         "C01" => c01::replay(&v),
         "C03" => c03::replay(&v),
+        "C06" => c06::replay(&v),
+        "C11" => c11::replay(&v),
+        "C12" => c12::replay(&v),
+        "C17" => c17::replay(&v),
         _ => { eprintln!("unknown property {id}"); 2 }
     }
 }
